@@ -76,6 +76,47 @@ def round_trip(ctx):
     ctx.prove("same-dictionary-as-a-single-assembly", final == reference, first_differences=diff)
 
 
+def _sphere_mesh():
+    import classy_blocks as cb
+
+    mesh = Mesh()
+    shape = cb.Hemisphere([0.0, 0.0, 0.0], [1.0, 0.0, 0.0], [0.0, 0.0, 1.0])
+    shape.chop_axial(count=3)
+    shape.chop_radial(count=2)
+    shape.chop_tangential(count=3)
+    mesh.add(shape)
+    box = cb.Box([3.0, 0.0, 0.0], [4.0, 1.0, 1.0])
+    for ax in range(3):
+        box.chop(ax, count=2)
+    box.project_side("top", "lid", edges=True)
+    mesh.add(box)
+    mesh.add_geometry({"lid": ["type plane", "planeType pointAndNormal", "point (0 0 1)", "normal (0 0 1)"]})
+    return mesh
+
+
+@proof("C12", "round-trip/shape-with-its-own-geometry", cases=list(HISTORIES), level="S", samples=1,
+       functions=["classy_blocks.mesh:Mesh.assemble", "classy_blocks.mesh:Mesh.clear", "classy_blocks.lists.geometry_list:GeometryList.add",
+                  "classy_blocks.construct.shapes.sphere:EighthSphere.geometry"],
+       note="a hemisphere (which declares its own searchable sphere at every assembly) beside a box projected to a user geometry, through the 7 histories")
+def round_trip_sphere(ctx):
+    import re
+
+    # the shape's geometry is named after the object's id: compare modulo that name
+    norm = lambda text: re.sub(r"sphere_\d+", "sphere_ID", strip_ws(text))
+    reference = norm(write_text(_sphere_mesh()))
+    mesh = _sphere_mesh()
+    for step in HISTORIES[ctx.case]:
+        if step == "write":
+            ctx.prove("intermediate-write-equals-reference", norm(write_text(mesh)) == reference, step=step)
+        else:
+            getattr(mesh, step)()
+    final = norm(write_text(mesh))
+    a, b = final.split(), reference.split()
+    k = next((i for i, (x, y) in enumerate(zip(a, b)) if x != y), min(len(a), len(b)))
+    ctx.prove("same-dictionary-as-a-single-assembly", final == reference,
+              first_differences=[" ".join(a[max(0, k - 8): k + 8]), " ".join(b[max(0, k - 8): k + 8])] if final != reference else [])
+
+
 @proof("C12", "backport/moved-vertices-update-exactly-their-operations", cases=list(range(len(SEEDS))), level="S", samples=1,
        functions=["classy_blocks.mesh:Mesh.backport", "classy_blocks.construct.flat.face:Face.update", "classy_blocks.mesh:Mesh.operations"],
        note="a vertex is moved after assembly; also with deleted operations anywhere in the depot")
@@ -91,7 +132,9 @@ def backport_moved(ctx):
     new_pos = old_pos + d * prog.size
     before = {id(op): np.array(op.point_array, dtype=object).copy() for op in prog.ops}
     if si % 2 == 0:
-        target.move_to(new_pos)
+        scratch = np.array(new_pos, dtype=float)
+        target.move_to(scratch)
+        scratch += 7.0    # the caller's array is the caller's: re-using it afterwards must not move the vertex
     else:
         target.translate(d * prog.size)   # modifies the vertex' position in place
     live = prog.live_ops
@@ -158,3 +201,37 @@ def delete_after_assembly(ctx):
     mesh.assemble()
     mesh.backport()
     ctx.prove("deletion-survives-clear-and-backport", len(mesh.blocks) == n_before - 1)
+
+
+@proof("C12", "regrade/written-again-after-vertices-were-moved", cases=["neighbour-copies-the-count", "neighbour-added-first", "three-in-a-row"], level="S", samples=1,
+       functions=["classy_blocks.mesh:Mesh.grade", "classy_blocks.lists.block_list:BlockList.grade_blocks", "classy_blocks.items.wires.manager:WireManagerBase.reset",
+                  "classy_blocks.items.wires.manager:WirePropagateManager.reset", "classy_blocks.items.wires.manager:WireChopManager.grade"],
+       note="write, move vertices (the cell count of a size-based chop depends on the edge length), write again: the second file is the one a "
+            "freshly built model with the moved geometry gives")
+def regrade_after_move(ctx):
+    import classy_blocks as cb
+    from classy_blocks.modify.find.geometric import GeometricFinder
+
+    def model(height):
+        n = 3 if ctx.case == "three-in-a-row" else 2
+        ops = [cb.Box([float(i), 0.0, 0.0], [float(i) + 1, 1.0, height]) for i in range(n)]
+        ops[0].chop(0, count=3)
+        ops[0].chop(1, count=3)
+        ops[0].chop(2, start_size=0.05, c2c_expansion=1.1)
+        for op in ops[1:]:
+            op.chop(0, count=3)
+        order = ops[::-1] if ctx.case == "neighbour-added-first" else ops
+        mesh = Mesh()
+        for op in order:
+            mesh.add(op)
+        return mesh
+
+    mesh = model(1.0)
+    first = strip_ws(write_text(mesh))
+    ctx.prove("first-write-equals-a-fresh-model", first == strip_ws(write_text(model(1.0))))
+    for v in GeometricFinder(mesh).find_on_plane([0.0, 0.0, 1.0], [0.0, 0.0, 1.0]):
+        v.translate([0.0, 0.0, 0.5])
+    text, exc = ctx.call(write_text, mesh)
+    ctx.prove("second-write-succeeds", exc is None, exc=repr(exc)[:200])
+    if exc is None:
+        ctx.prove("second-write-equals-a-fresh-model-of-the-moved-geometry", strip_ws(text) == strip_ws(write_text(model(1.5))))
